@@ -25,6 +25,10 @@ CLAIMED = {
   text='Coq theorems (Props/C16.v) about executable models of concatenate, duplicate, delete_resource and appending sources over packages of any size: the concatenation target sits at the first selected position with prefix and suffix resources identical, non-consecutive selections are rejected, target rows are one per source row in resource order with exactly the target fields as keys; duplicate\'s copy read back from the ordered store equals the source rows for any length below 16^w (w regenerated from the source) and is placed right after the source or at the end with everything else unchanged; delete_resource filters exactly the selected resources keeping order; sources append. Correspondence by vm_compute against the real processors (batch sizes 1/7/1000, in-place edit after duplicate, four kinds of appending source); direct oracle from the property statement.',
   note='Trusted: Coq kernel+vm_compute; KVFile as ordered map; selections passed as explicit name lists (C10 covers selector meaning); harness oracle.',
   technique='Coq proof over executable model + generated constants + vm_compute correspondence + direct oracle', ref='5/C16'),
+ 'C14': dict(
+  text='Coq theorems (Props/C14.v) about the model of schema_validator as used by set_type and validate, for ANY cast function (Table Schema\'s cast is a parameter): rows with all checked values valid are emitted with exactly the cast values under every policy and no handler call; raise aborts at the first offending row with its index; drop removes exactly the offending rows; ignore keeps all rows with offending values untouched; clear nulls exactly the offending fields; unchecked fields are untouched; set_type\'s transform is applied before the cast. Correspondence by vm_compute against the real set_type/validate with the cast table computed by the real tableschema; direct oracle from the property statement.',
+  note='Trusted: Coq kernel+vm_compute; tableschema Field.cast_value is the oracle for the cast parameter; distinct checked field names; harness oracle.',
+  technique='Coq proof (parametric in the cast) over executable model + vm_compute correspondence + direct oracle', ref='5/C14'),
 }
 
 NOT_YET = 'check not built yet (work in progress; will be claimed once its Coq model, theorems and correspondence check exist)'
